@@ -10,9 +10,11 @@
 
    The Adj-RIB-In is abstracted to key -> (attribute token, filtered); a key is
    (peer, shard, index, path id); the import policy is "reject these peers".
-   [variant] selects soft_reset_in before ([Legacy]: subscriber list loaded once,
-   before the shard loop) and after ([Fixed]: loaded inside each critical
-   section) the fix commit of finding C18-2. *)
+   [variant] selects the behaviour before ([Legacy]) and after ([Fixed]) the fix
+   commits of findings C18-1 (an insert refused by the prefix limit had been
+   announced and was not taken back) and C18-2 (soft_reset_in loaded the
+   subscriber list once, before the shard loop, instead of inside each critical
+   section). *)
 From Coq Require Import List NArith Bool.
 From RB Require Import Base.Val.
 Import ListNotations.
@@ -90,8 +92,7 @@ Record glob := {
   g_walk : N;                          (* shards snapshotted so far *)
   g_pol : N;
   g_ctr : N -> N;                      (* per-session prefix counters *)
-  g_evs : list ev;                     (* what the subscriber's channel received, oldest first *)
-  g_rej : list key                     (* ghost: keys of inserts rejected by the prefix limit *)
+  g_evs : list ev                      (* what the subscriber's channel received, oldest first *)
 }.
 
 Record sys := { s_g : glob; s_thr : nat -> thread }.
@@ -99,7 +100,7 @@ Record sys := { s_g : glob; s_thr : nat -> thread }.
 Definition thread0 : thread := {| t_cur := []; t_ops := []; t_pol := 0; t_subs := false |}.
 Definition glob0 : glob :=
   {| g_keys := []; g_rib := fun _ => None; g_subs := false; g_walk := 0; g_pol := 0;
-     g_ctr := fun _ => 0; g_evs := []; g_rej := [] |}.
+     g_ctr := fun _ => 0; g_evs := [] |}.
 Definition init (progs : list (list op)) : sys :=
   {| s_g := glob0;
      s_thr := fun i => {| t_cur := []; t_ops := nth i progs []; t_pol := 0; t_subs := false |} |}.
@@ -132,36 +133,50 @@ Definition peer_has_prefix (g : glob) (k : key) : bool :=
   existsb (fun q => same_prefix q k && match g_rib g q with Some _ => true | None => false end) (g_keys g).
 
 Definition set_evs_rib (g : glob) (evs : list ev) (keys : list key) (rib : key -> option (N * bool))
-           (ctr : N -> N) (rej : list key) : glob :=
+           (ctr : N -> N) : glob :=
   {| g_keys := keys; g_rib := rib; g_subs := g_subs g; g_walk := g_walk g; g_pol := g_pol g;
-     g_ctr := ctr; g_evs := g_evs g ++ evs; g_rej := rej |}.
+     g_ctr := ctr; g_evs := g_evs g ++ evs |}.
+
+(* the value a kind of Adj-RIB-In holds for a key: [b = false] pre-policy
+   (iter_reach), [b = true] post-policy (iter_reach_post: filtered paths left out) *)
+Definition ribv (b : bool) (r : key -> option (N * bool)) (k : key) : option N :=
+  match r k with
+  | Some (tok, f) => if b && f then None else Some tok
+  | None => None
+  end.
+Definition evk (b : bool) (k : key) (x : option N) : ev := if b then EvPost k x else EvPre k x.
 
 (* insert_route's critical section *)
 Definition ins_locked (g : glob) (pol : N) (k : key) (tok : N) : glob :=
   let filtered := rejects pol (k_peer k) in
-  let evs := send (g_subs g) [EvPre k (Some tok); EvPost k (post_val tok filtered)] in
+  let evs := send (g_subs g) [evk false k (Some tok); evk true k (post_val tok filtered)] in
   let is_new := negb (peer_has_prefix g k) in
   match limit_of (k_peer k) with
   | Some m =>
     if is_new && (m <=? g_ctr g (k_peer k)) then
-      (* PrefixLimitExceeded: already notified, nothing inserted *)
-      set_evs_rib g evs (g_keys g) (g_rib g) (g_ctr g) (k :: g_rej g)
+      (* PrefixLimitExceeded: already notified, nothing inserted; since the fix of
+         finding C18-1 the announcement is taken back *)
+      set_evs_rib g (evs ++ match v with
+                           | Legacy => []
+                           | Fixed => send (g_subs g) [evk false k None; evk true k None]
+                           end)
+                  (g_keys g) (g_rib g) (g_ctr g)
     else
       set_evs_rib g evs (add_key k (g_keys g)) (upd_rib k (Some (tok, filtered)) (g_rib g))
-                  (if is_new then set_ctr (k_peer k) (g_ctr g (k_peer k) + 1) (g_ctr g) else g_ctr g) (g_rej g)
+                  (if is_new then set_ctr (k_peer k) (g_ctr g (k_peer k) + 1) (g_ctr g) else g_ctr g)
   | None =>
-    set_evs_rib g evs (add_key k (g_keys g)) (upd_rib k (Some (tok, filtered)) (g_rib g)) (g_ctr g) (g_rej g)
+    set_evs_rib g evs (add_key k (g_keys g)) (upd_rib k (Some (tok, filtered)) (g_rib g)) (g_ctr g)
   end.
 
 (* remove_route's critical section *)
 Definition rem_locked (g : glob) (k : key) : glob :=
-  let evs := send (g_subs g) [EvPre k None; EvPost k None] in
+  let evs := send (g_subs g) [evk false k None; evk true k None] in
   let rib' := upd_rib k None (g_rib g) in
-  let g' := set_evs_rib g evs (g_keys g) rib' (g_ctr g) (g_rej g) in
+  let g' := set_evs_rib g evs (g_keys g) rib' (g_ctr g) in
   match g_rib g k, limit_of (k_peer k) with
   | Some _, Some _ =>
     if peer_has_prefix g' k then g'
-    else set_evs_rib g evs (g_keys g) rib' (set_ctr (k_peer k) (g_ctr g (k_peer k) - 1) (g_ctr g)) (g_rej g)
+    else set_evs_rib g evs (g_keys g) rib' (set_ctr (k_peer k) (g_ctr g (k_peer k) - 1) (g_ctr g))
   | _, _ => g'
   end.
 
@@ -170,44 +185,42 @@ Definition in_shard (s : N) (k : key) : bool := shard_of k =? s.
 (* TableShard::disconnected for one shard: paths vanish, no Adj-RIB-In event *)
 Definition unreg_shard (g : glob) (p s : N) : glob :=
   set_evs_rib g [] (g_keys g)
-    (fun q => if (k_peer q =? p) && in_shard s q then None else g_rib g q) (g_ctr g) (g_rej g).
+    (fun q => if (k_peer q =? p) && in_shard s q then None else g_rib g q) (g_ctr g).
 
 (* TableShard::soft_reset_in for one shard *)
+Definition reset_rib (r : key -> option (N * bool)) (f' : bool) (p s : N) : key -> option (N * bool) :=
+  fun q => if (k_peer q =? p) && in_shard s q
+           then match r q with Some (tok, _) => Some (tok, f') | None => None end
+           else r q.
 Definition reset_shard (g : glob) (subs : bool) (pol p s : N) : glob :=
-  let f' := rejects pol p in
-  let ks := filter (fun q => (k_peer q =? p) && in_shard s q &&
-                             match g_rib g q with Some _ => true | None => false end) (g_keys g) in
+  let r' := reset_rib (g_rib g) (rejects pol p) p s in
+  let ks := filter (fun q => (k_peer q =? p) && in_shard s q) (g_keys g) in
   let evs := flat_map (fun q => match g_rib g q with
-                                | Some (tok, _) => [EvPost q (post_val tok f')]
+                                | Some _ => [evk true q (ribv true r' q)]
                                 | None => []
                                 end) ks in
-  set_evs_rib g (send subs evs) (g_keys g)
-    (fun q => if (k_peer q =? p) && in_shard s q
-              then match g_rib g q with Some (tok, _) => Some (tok, f') | None => None end
-              else g_rib g q) (g_ctr g) (g_rej g).
+  set_evs_rib g (send subs evs) (g_keys g) r' (g_ctr g).
 
 (* one shard of subscribe's snapshot loop (sent on the subscription's own sender) *)
+Definition walk_evs (b : bool) (r : key -> option (N * bool)) (ks : list key) : list ev :=
+  flat_map (fun q => match ribv b r q with Some tok => [evk b q (Some tok)] | None => [] end) ks.
 Definition walk_shard (g : glob) : glob :=
   let s := g_walk g in
   let ks := filter (fun q => in_shard s q) (g_keys g) in
-  let pre := flat_map (fun q => match g_rib g q with Some (tok, _) => [EvPre q (Some tok)] | None => [] end) ks in
-  let post := flat_map (fun q => match g_rib g q with
-                                 | Some (tok, false) => [EvPost q (Some tok)]
-                                 | _ => []
-                                 end) ks in
   {| g_keys := g_keys g; g_rib := g_rib g; g_subs := g_subs g; g_walk := s + 1; g_pol := g_pol g;
-     g_ctr := g_ctr g; g_evs := g_evs g ++ pre ++ post ++ (if s + 1 =? 2 then [EvEnd] else []);
-     g_rej := g_rej g |}.
+     g_ctr := g_ctr g;
+     g_evs := g_evs g ++ walk_evs false (g_rib g) ks ++ walk_evs true (g_rib g) ks ++
+              (if s + 1 =? 2 then [EvEnd] else []) |}.
 
 Definition with_evs (g : glob) (evs : list ev) : glob :=
-  set_evs_rib g evs (g_keys g) (g_rib g) (g_ctr g) (g_rej g).
+  set_evs_rib g evs (g_keys g) (g_rib g) (g_ctr g).
 
 (* effect of one atomic step executed by a thread with locals [t] *)
 Definition exec (g : glob) (t : thread) (m : mstep) : glob * thread :=
   match m with
   | MSubReg =>
     ({| g_keys := g_keys g; g_rib := g_rib g; g_subs := true; g_walk := g_walk g; g_pol := g_pol g;
-        g_ctr := g_ctr g; g_evs := g_evs g; g_rej := g_rej g |}, t)
+        g_ctr := g_ctr g; g_evs := g_evs g |}, t)
   | MWalk => (walk_shard g, t)
   | MInsPrep _ _ =>
     (g, {| t_cur := t_cur t; t_ops := t_ops t; t_pol := g_pol g; t_subs := t_subs t |})
@@ -217,14 +230,14 @@ Definition exec (g : glob) (t : thread) (m : mstep) : glob * thread :=
   | MUp p => (with_evs g (send (g_subs g) [EvUp p]), t)
   | MUnregShard p s => (unreg_shard g p s, t)
   | MPeerDown p =>
-    (set_evs_rib g (send (g_subs g) [EvDown p]) (g_keys g) (g_rib g) (set_ctr p 0 (g_ctr g)) (g_rej g), t)
+    (set_evs_rib g (send (g_subs g) [EvDown p]) (g_keys g) (g_rib g) (set_ctr p 0 (g_ctr g)), t)
   | MResetPrep _ =>
     (g, {| t_cur := t_cur t; t_ops := t_ops t; t_pol := g_pol g; t_subs := g_subs g |})
   | MResetShard p s =>
     (reset_shard g (match v with Legacy => t_subs t | Fixed => g_subs g end) (t_pol t) p s, t)
   | MSetPol n =>
     ({| g_keys := g_keys g; g_rib := g_rib g; g_subs := g_subs g; g_walk := g_walk g; g_pol := n;
-        g_ctr := g_ctr g; g_evs := g_evs g; g_rej := g_rej g |}, t)
+        g_ctr := g_ctr g; g_evs := g_evs g |}, t)
   end.
 
 (* next atomic step of a thread: continue the operation in progress, or start the next one *)
@@ -312,8 +325,8 @@ Definition v_map (ks : list key) (m : key -> option N) : val :=
 Definition observe (g : glob) : val :=
   let ks := all_keys g in
   VL [VList v_ev (g_evs g);
-      v_map ks (fun k => match g_rib g k with Some (tok, _) => Some tok | None => None end);
-      v_map ks (fun k => match g_rib g k with Some (tok, false) => Some tok | _ => None end);
+      v_map ks (ribv false (g_rib g));
+      v_map ks (ribv true (g_rib g));
       v_map ks (fold_pre (g_evs g));
       v_map ks (fold_post (g_evs g));
       VList v_ev (forward [] (g_evs g))].
